@@ -230,7 +230,9 @@ impl Method {
 
 const WORDS: &[&str] = &["get", "set", "list", "info", "user", "x", "v2", "2fa", "url", "id", "item", "by", "name", "a", "io", "do", "all"];
 const RAW_METHODS: &[&str] = &["r#move", "r#type", "r#match", "r#loop"];
-const PARAM_NAMES: &[&str] = &["key", "value", "count", "flag", "name", "items", "the_key", "user_id", "x", "data2", "call", "params", "result", "r#type", "reply", "conn"];
+const PARAM_NAMES: &[&str] = &["key", "value", "count", "flag", "name", "items", "the_key", "user_id", "x", "data2", "call", "params", "result", "r#type", "reply", "conn",
+    // names a macro expansion is likely to use for its own locals
+    "method", "parameters", "connection", "stream", "chain", "error", "out", "args", "this", "request", "item", "more", "oneway"];
 const RENAMES: &[&str] = &["theKey", "user-id", "Type", "x.y", "UPPER", "k2"];
 const METHOD_RENAMES: &[&str] = &["GetURL", "Custom", "X2", "lowercase", "DoIt"];
 
